@@ -23,6 +23,7 @@ pub struct EnvEngine {
     e05_prog: gen::Enum05,
     e08_has: gen::Enum08Has,
     e08_co: gen::Enum08Coalesce,
+    e08_cond: gen::Enum08Cond,
 }
 
 fn env_u64(name: &str) -> Option<u64> {
@@ -38,6 +39,7 @@ impl EnvEngine {
             e05_prog: gen::Enum05::new(2, &gen::ATOMS_PROG),
             e08_has: gen::Enum08Has::new(),
             e08_co: gen::Enum08Coalesce::new(),
+            e08_cond: gen::Enum08Cond::new(),
         }
     }
 
@@ -75,8 +77,10 @@ impl EnvEngine {
                 let nh = self.e08_has.items.len() as u64;
                 if k < nh {
                     self.e08_has.case(k, seed)
-                } else if k < en {
+                } else if k < nh + self.e08_co.total {
                     self.e08_co.case(k - nh, seed)
+                } else if k < en {
+                    self.e08_cond.case(k - nh - self.e08_co.total, seed)
                 } else {
                     gen::gen08_random(mix(seed, "C08", k))
                 }
@@ -203,7 +207,7 @@ impl Engine for EnvEngine {
             }
             EnvProp::C07 => (0, rnd.unwrap_or(if thorough { 1_000_000 } else { 60_000 })),
             EnvProp::C08 => {
-                let en = self.e08_has.items.len() as u64 + self.e08_co.total;
+                let en = self.e08_has.items.len() as u64 + self.e08_co.total + self.e08_cond.items.len() as u64;
                 (en, rnd.unwrap_or(if thorough { 3_000_000 } else { 60_000 }))
             }
         }
